@@ -48,6 +48,8 @@ for k in sorted(res):
         print('    %s %s %s %s' % (a['property'], a['rule'], a['site'], a['message'][:200]))
 if not only:
     json.dump(res, open('/verif/benign/RESULTS.json', 'w'), indent=1)
+else:
+    json.dump(res, open('/verif/.cache/benign_last_partial.json', 'w'), indent=1)
 n_al = sum(1 for v in res.values() if v['status'] == 'ALARM')
 print('silent %d, alarms %d, skipped %d of %d' % (sum(1 for v in res.values() if v['status'] == 'silent'), n_al,
                                                   sum(1 for v in res.values() if v['status'] == 'skipped'), len(res)))
